@@ -167,7 +167,7 @@ func (p *regexpPattern) findAllSubmatchIndex(s String, start int, limit int, sti
 		}
 		if limit == 1 {
 			result := p.regexpWrapper.findSubmatchIndexUnicode(u, p.unicode)
-			if result.indexes == nil {
+			if result.indexes == nil || sticky && result.indexes[0] != 0 {
 				return nil
 			}
 			return []regexpResult{result}
@@ -466,6 +466,10 @@ func (r *regexp2Wrapper) findAllSubmatchIndexUnicode(s unicodeString, start, lim
 		}
 
 		results = append(results, result)
+		limit--
+		if limit <= 0 {
+			break
+		}
 		match, err = wrapped.FindNextMatch(match)
 		if err != nil {
 			return nil
